@@ -836,6 +836,8 @@ func checkC03(ck *Check) {
 	// R4 recovery branch
 	ck.recoveryBranch("C03.R4")
 	ck.restoreTotality("C03.R7")
+	// R8 … and "requesting the rest" is not skipped because an untaint write failed (decided as C07.R12)
+	ck.untaintNeverFails("C03.R8")
 	// R5 auto discovery
 	ck.autoDiscovery("C03.R5")
 	// R6 a node counts as tainted only when the server confirmed the write
